@@ -235,11 +235,19 @@ def fromOdsLeopardErr (enc : List Bytes → List Bytes) (k : Nat) (ods : List By
     || (q2Rows enc k ods).any (fun row => leopardEncodeErr (row ++ pad) k)
 
 /-- `ExtendedDataSquare::from_ods(ods_shares, app_version)`; the extension itself is group D's
-    `Eds.extendRaw` (Q1 = enc of Q0 rows, Q2 = enc of Q0 columns, Q3 = enc of Q2 rows) -/
+    `Eds.extendRaw` (Q1 = enc of Q0 rows, Q2 = enc of Q0 columns, Q3 = enc of Q2 rows).  For the empty square
+    (`ods_width == 0`, since the `fix:` commit bcfb373) nothing is encoded and `new(vec![])` rejects: that is what the
+    general formula below gives for `k = 0` (no encoder call, `extendRaw` of nothing is `[]`). -/
 def fromOds (enc : List Bytes → List Bytes) (ver : Nat) (ods : List Bytes) : Except EdsErr Eds :=
   let k := isqrt ods.length
   if k * k ≠ ods.length then .error .invalidDimensions
   else if fromOdsLeopardErr enc k ods then .error .leopard
   else edsNew ver (extendRaw enc k ods)
+
+/-- `from_ods` BEFORE the `fix:` commit bcfb373: for the empty original square `eds_shares.chunks_mut(0)` panics
+    ("chunk size must be non-zero"); `none` = that panic -/
+def fromOdsUnfixed (enc : List Bytes → List Bytes) (ver : Nat) (ods : List Bytes) : Option (Except EdsErr Eds) :=
+  if isqrt ods.length * isqrt ods.length = ods.length ∧ isqrt ods.length = 0 then none
+  else some (fromOds enc ver ods)
 
 end Lumina.Model.EdsCode
